@@ -39,6 +39,17 @@ fn has_zero_width_sequence(ty: &Ty) -> bool {
     )
 }
 
+/// known finding D09 precisely: a type with a sequence of elements that have an empty encoding, and an input whose
+/// counts are non-negative; a negative count taken for a size, or a budget exhausted by a type without zero-width
+/// sequences, is a different defect
+fn is_zero_width_count_case(s: &dyn Subject, bytes: &[u8]) -> bool {
+    if !has_zero_width_sequence(&s.ty()) {
+        return false;
+    }
+    // a negative count taken for a size is a different defect (repaired by 0df90dd): the reference names it
+    !matches!(ref_decode(&s.ty(), bytes), Err(e) if e.kind == ErrKind::NegativeLength)
+}
+
 pub struct Judged {
     pub real: Call<Val>,
     pub stats: CallStats,
@@ -84,7 +95,7 @@ fn judge_total(acc: &mut Acc, s: &dyn Subject, class: &str, bytes: &[u8], judge:
             }
         }
         Call::StepBudget(n) => {
-            let kind = if has_zero_width_sequence(&s.ty()) { "zero_width_elements" } else { "other" };
+            let kind = if is_zero_width_count_case(s, bytes) { "zero_width_elements" } else { "other" };
             acc.violation(
                 format!("C05|steps:{kind}|{}", s.id()),
                 replay_decode("C05", s.id(), bytes, class).with("sequence_items_yielded", J::u(*n)).with("input_len", J::u(len as u64)),
@@ -95,7 +106,7 @@ fn judge_total(acc: &mut Acc, s: &dyn Subject, class: &str, bytes: &[u8], judge:
     let total_budget = 256 * 1024 + 1024 * len;
     if stats.alloc.max_single > single_budget || stats.alloc.total > total_budget {
         // a huge count of zero-width elements also costs memory in node-based containers (LinkedList<()>): same finding
-        let kind = if has_zero_width_sequence(&s.ty()) && stats.steps > len as u64 + 1024 { ":zero_width_elements" } else { "" };
+        let kind = if stats.steps > len as u64 + 1024 && is_zero_width_count_case(s, bytes) { ":zero_width_elements" } else { "" };
         acc.violation(
             format!("C05|alloc{kind}|{}", s.id()),
             replay_decode("C05", s.id(), bytes, class)
